@@ -44,10 +44,12 @@ Pick == /\ st = "pick"
         /\ st' = "run"
         /\ UNCHANGED <<position, bufferStart, bufNil, pc, searchVars, seeked, out>>
 
-Run == st = "run" /\ Next /\ UNCHANGED st
+Run == st = "run" /\ Next /\ UNCHANGED <<st, ends, tss>>
 
 MNext == Pick \/ Run
 Spec == Init /\ [][MNext]_mvars
+\* Layout emission only (QLogFileAlgMC.gen.cfg).
+GenSpec == Init /\ [][Pick]_mvars
 \* For the termination property only.
 FairSpec == Spec /\ WF_mvars(Run /\ Probe)
 
